@@ -35,6 +35,7 @@ type entry struct {
 	newCirc func() frontend.Circuit
 	opts    []frontend.CompileOption
 	heavy   bool // compiled fewer times (constant factor), because one compilation costs ~1 s
+	storm   bool // compiled in dedicated rounds of simultaneous compilations (gadgets with package-level state)
 }
 
 func twoOutHint(_ *big.Int, in, out []*big.Int) error {
@@ -300,8 +301,8 @@ func catalog(nSpecs int, specSeed func(i int) *circuits.Spec) []entry {
 		entry{name: "wire-query/GetWiresConstraintExact(addMissing)", field: ecc.BN254, scs: true, newCirc: func() frontend.Circuit { return &wireQueryCircuit{exact: true} }},
 		entry{name: "sha2+mimc", field: ecc.BN254, r1cs: true, scs: true, heavy: true, newCirc: func() frontend.Circuit { return &hashCircuit{} }},
 		entry{name: "emulated-variable-modulus", field: ecc.BN254, r1cs: true, scs: true, newCirc: func() frontend.Circuit { return &varModCircuit{} }},
-		entry{name: "sw_bls12381-G1/k=0", field: ecc.BN254, scs: true, heavy: true, newCirc: func() frontend.Circuit { return &g1Circuit{k: 0} }},
-		entry{name: "sw_bls12381-G1/k=1", field: ecc.BN254, scs: true, heavy: true, newCirc: func() frontend.Circuit { return &g1Circuit{k: 1} }},
+		entry{name: "sw_bls12381-G1/k=0", field: ecc.BN254, scs: true, heavy: true, storm: true, newCirc: func() frontend.Circuit { return &g1Circuit{k: 0} }},
+		entry{name: "sw_bls12381-G1/k=1", field: ecc.BN254, scs: true, heavy: true, storm: true, newCirc: func() frontend.Circuit { return &g1Circuit{k: 1} }},
 		entry{name: "gkr-poseidon2", field: ecc.BLS12_377, scs: true, heavy: true, newCirc: func() frontend.Circuit { return &gkrCircuit{} }},
 	)
 	return es
